@@ -138,6 +138,8 @@ def err_kind(e):
         return "sumNotOne"
     if "eps must be a positive" in s:
         return "epsNonPos"
+    if "square matrices" in s:
+        return "nonSquare"
     if "broadcast" in s:
         return "broadcast"
     if "full rank" in s:
@@ -286,6 +288,8 @@ def correspondence(ctx):
             ws = [float(x) for x in g.integers(0, 5, size=S)]
             if t % 7 == 6:
                 ws[0] = -1.0
+            if t % 5 == 3:      # wrong number of weights (one too few / one too many)
+                ws = ws[:-1] if (t // 5) % 2 == 0 and S > 1 else ws + [1.0]
             toks = [EPS8, qlist(ws), S] + [qlist(x) for x in pss] + [S]
             for gs in gss:
                 toks += [len(gs)] + [qlist(x) for x in gs]
@@ -626,20 +630,50 @@ def check_helpers(ctx, salt, n):
         except ValueError as e:
             sig = "C19/matrix_util.calc_fisher_matrix_total/size" if nv != m else "C19/matrix_util.calc_fisher_matrix_total/raises"
             _viol(ctx, sig, f"{m} outcomes, {nv} variables: {e}", repf)
+        for wbad, what in ((ws[:-1], "one weight too few"), (ws + [1.0], "one weight too many")):
+            try:
+                mu.calc_fisher_matrix_total(pss, gss, wbad)
+                _viol(ctx, "C19/matrix_util.calc_fisher_matrix_total/weights-length", f"{what}: accepted ({Sn} distributions, {len(wbad)} weights)", rep)
+            except ValueError:
+                pass
+            except Exception as e:  # noqa
+                _viol(ctx, "C19/matrix_util.calc_fisher_matrix_total/weights-length", f"{what}: {type(e).__name__} instead of the documented ValueError", rep)
     # non-square input of calc_direct_sum must be rejected (docstring: ValueError)
     try:
         r = mu.calc_direct_sum([np.eye(2), np.array([[1.0], [2.0]])])
         _viol(ctx, "C19/calc_direct_sum/nonsquare-accepted", f"a 2x1 block is accepted and broadcast: {r.tolist()}", {"kind": "dsum-nonsquare"})
     except ValueError:
         pass
-    # calc_mse_qoperations on real objects
+    # calc_mse_qoperations on real objects of every type and both parametrisations: mean / std(ddof=1) of the squared
+    # distance of the *whole* objects (all POVM elements, all HS rows), whatever the variable parametrisation
     c = qobj.csys("qubit")
-    xs = [qobj.rand_state(g, c) for _ in range(4)]
-    y = qobj.rand_state(g, c)
-    pts = [float(np.sum((x.vec - y.vec) ** 2)) for x in xs]
-    mse, std = da.calc_mse_qoperations(xs, [y] * 4)
-    if not close(mse, np.mean(pts), 1e-12) or not close(std, np.std(pts, ddof=1), 1e-10):
-        _viol(ctx, "C19/calc_mse_qoperations", "mean / std(ddof=1) of squared distances", {"kind": "helpers", "salt": salt, "n": n})
+
+    def whole(o):
+        if hasattr(o, "hss"):
+            return np.concatenate([np.asarray(h).flatten() for h in o.hss])
+        if hasattr(o, "hs"):
+            return np.asarray(o.hs).flatten()
+        if hasattr(o, "vecs"):
+            return np.concatenate([np.asarray(v) for v in o.vecs])
+        return np.asarray(o.vec)
+    for flag in (True, False):
+        makers = {
+            "state": lambda: qobj.State(c, qobj.vec_of(c, qobj.rand_density(g, 2)), on_para_eq_constraint=flag),
+            "povm": lambda: qobj.Povm(c, [qobj.vec_of(c, e) for e in qobj.rand_povm_mats(g, 2, 3)], on_para_eq_constraint=flag),
+            "gate": lambda: qobj.Gate(c, qobj.rand_gate(g, c).hs, on_para_eq_constraint=flag),
+            "mprocess": lambda: qobj.rand_mprocess(g, c, 2, on_para_eq_constraint=flag)[0],
+        }
+        for name, mk in makers.items():
+            xs = [mk() for _ in range(4)]
+            y = mk()
+            pts = [float(np.sum((whole(x) - whole(y)) ** 2)) for x in xs]
+            mse, std = da.calc_mse_qoperations(xs, [y] * 4)
+            mse2 = da.calc_mse_qoperations(xs, [y] * 4, with_std=False)
+            ctx.case(("mse_qoperations", name, flag, salt))
+            if not close(mse, np.mean(pts), 1e-10) or not close(std, np.std(pts, ddof=1), 1e-9) or not close(mse2, np.mean(pts), 1e-10):
+                _viol(ctx, f"C19/calc_mse_qoperations/{name}-{'on_para' if flag else 'free'}",
+                      f"(mse,std)=({mse},{std}) vs mean {np.mean(pts)} / std(ddof=1) {np.std(pts, ddof=1)} of the squared distances of the whole objects",
+                      {"kind": "helpers", "salt": salt, "n": n})
 
 
 def oracle(ctx, volume=1):
